@@ -1,14 +1,34 @@
-//! C13 correspondence: FvarTable::normalize (+ optional avar) on synthesised fvar/avar tables.
-//! input  = N|min,def,max min,def,max ...|AVAR|c1,c2,...      (all raw 16.16 i32; N = tag only)
-//!          AVAR = `-` (no avar) or maps separated by spaces, each `f:t,f:t,...` (raw 2.14 i16) or `_` (empty map)
-//! output = ok:v1,v2,... (raw 2.14) | err:E | panic
+//! C13 correspondence: coordinate normalisation at every public entry point, on synthesised fvar/avar tables.
+//! input  = N|AXES|AVAR|COORDS          FvarTable::normalize, canonical fvar (offset 16, axisSize 20, no instances)
+//!        | F|SHAPE|AXES|AVAR|COORDS    FvarTable::normalize on an fvar laid out as SHAPE says
+//!        | I|SHAPE|AXES|AVAR|COORDS    variations::instance on a small TrueType variable font carrying that fvar
+//!                                      (+ avar); the returned tuple is the result
+//!        | O|SHAPE|AXES|K              FvarTable::owned_tuple with K values -> ok:1 (Some) | ok:0 (None)
+//!        | S|MAP|X                     SegmentMap::normalize(X) through AvarTable::segment_maps() (raw 16.16 in/out)
+//!   AXES   = min,def,max[,tag] separated by spaces (raw 16.16 i32; tag u32, default 'wght'+i)
+//!   AVAR   = `-` (no avar) or maps separated by spaces, each `f:t,f:t,...` (raw 2.14 i16) or `_` (empty map)
+//!   COORDS = c1,c2,... (raw 16.16 i32) or `-`, or `@k` (F, I): the coordinates of the table's own named instance k
+//!            (FvarTable::instances().nth(k)); no such instance -> err:MissingValue
+//!   SHAPE  = major,off,asz,dcount,icnt,isz,trail : header majorVersion, axesArrayOffset, axisSize,
+//!            axisCount = #AXES + dcount, instanceCount, instanceSize; the records are written at max(off,16),
+//!            max(asz,20) bytes apart (record, then filler), followed by icnt instance records of exactly isz bytes
+//!            (name id, flags, per axis one of min / default / max / midpoint, filler; cut short when isz is too
+//!            small) and `trail` more bytes (negative: that many bytes cut off the end)
+//! output = ok:v1,v2,... (raw 2.14; S: one raw 16.16 value) | err:E | panic
 use allsorts::binary::read::ReadScope;
 use allsorts::tables::variable_fonts::avar::AvarTable;
 use allsorts::tables::variable_fonts::fvar::FvarTable;
-use allsorts::tables::Fixed;
+use allsorts::tables::{F2Dot14, Fixed};
+use allsorts::variations::{self, VariationError};
 use avh::prng::Rng;
 use avh::{harness_main, perr};
 use std::panic::{catch_unwind, AssertUnwindSafe};
+
+/// the C12 harness as the source of a complete TrueType variable font (head, maxp, glyf, gvar, ...) for
+/// `variations::instance`; its fvar is replaced by the one under test
+#[path = "c12.rs"]
+#[allow(dead_code, unused_imports, unused_variables, unused_mut)]
+mod c12;
 
 fn be16(v: &mut Vec<u8>, x: u16) {
     v.extend_from_slice(&x.to_be_bytes());
@@ -17,23 +37,83 @@ fn be32(v: &mut Vec<u8>, x: u32) {
     v.extend_from_slice(&x.to_be_bytes());
 }
 
-fn fvar_bytes(axes: &[(i32, i32, i32)]) -> Vec<u8> {
+/// what the fvar header says and what surrounds the axis records (see the module doc)
+#[derive(Clone, Copy, Debug)]
+pub struct Shape {
+    pub major: i64,
+    pub off: i64,
+    pub asz: i64,
+    pub dcount: i64,
+    pub icnt: i64,
+    pub isz: i64,
+    pub trail: i64,
+}
+
+pub const CANONICAL: Shape = Shape { major: 1, off: 16, asz: 20, dcount: 0, icnt: 0, isz: 0, trail: 0 };
+
+impl Shape {
+    fn parse(s: &str) -> Shape {
+        let p: Vec<i64> = s.split(',').map(|x| x.parse().unwrap()).collect();
+        Shape { major: p[0], off: p[1], asz: p[2], dcount: p[3], icnt: p[4], isz: p[5], trail: p[6] }
+    }
+    fn to_line(&self) -> String {
+        format!("{},{},{},{},{},{},{}", self.major, self.off, self.asz, self.dcount, self.icnt, self.isz, self.trail)
+    }
+}
+
+/// deterministic non-zero filler: byte i of a gap salted with k
+fn pad(v: &mut Vec<u8>, k: i64, n: i64) {
+    for i in 0..n.max(0) {
+        v.push((((k + i) * 37 + 165) % 256) as u8);
+    }
+}
+
+pub type Axis = (i32, i32, i32, u32);
+
+pub fn fvar_bytes_shape(sh: &Shape, axes: &[Axis]) -> Vec<u8> {
     let mut v = vec![];
-    be16(&mut v, 1); // major
+    be16(&mut v, sh.major as u16);
     be16(&mut v, 0); // minor
-    be16(&mut v, 16); // axesArrayOffset
+    be16(&mut v, sh.off as u16); // axesArrayOffset
     be16(&mut v, 2); // reserved
-    be16(&mut v, axes.len() as u16);
-    be16(&mut v, 20); // axisSize
-    be16(&mut v, 0); // instanceCount
-    be16(&mut v, (4 + 4 * axes.len()) as u16); // instanceSize
-    for (i, (mn, df, mx)) in axes.iter().enumerate() {
-        be32(&mut v, 0x77676874 + i as u32);
+    be16(&mut v, (axes.len() as i64 + sh.dcount) as u16);
+    be16(&mut v, sh.asz as u16); // axisSize
+    be16(&mut v, sh.icnt as u16); // instanceCount
+    be16(&mut v, sh.isz as u16); // instanceSize
+    pad(&mut v, 0, sh.off - 16);
+    for (i, (mn, df, mx, tg)) in axes.iter().enumerate() {
+        be32(&mut v, *tg);
         be32(&mut v, *mn as u32);
         be32(&mut v, *df as u32);
         be32(&mut v, *mx as u32);
         be16(&mut v, 0);
         be16(&mut v, 256 + i as u16);
+        pad(&mut v, i as i64, sh.asz - 20);
+    }
+    for i in 0..sh.icnt.max(0) {
+        // instance record i: subfamilyNameID, flags, one coordinate per axis (min / default / max / midpoint,
+        // rotating), filler; always exactly instanceSize bytes
+        let mut r = vec![];
+        be16(&mut r, (300 + i) as u16);
+        be16(&mut r, 0);
+        for (j, (mn, df, mx, _)) in axes.iter().enumerate() {
+            let c = match (i + j as i64) % 4 {
+                0 => *mn,
+                1 => *df,
+                2 => *mx,
+                _ => (*mn as i64 + *mx as i64).div_euclid(2) as i32,
+            };
+            be32(&mut r, c as u32);
+        }
+        pad(&mut r, i, sh.isz - 4 - 4 * axes.len() as i64);
+        r.truncate(sh.isz.max(0) as usize);
+        v.extend_from_slice(&r);
+    }
+    if sh.trail >= 0 {
+        pad(&mut v, 3, sh.trail);
+    } else {
+        let keep = (v.len() as i64 + sh.trail).max(0) as usize;
+        v.truncate(keep);
     }
     v
 }
@@ -51,71 +131,173 @@ fn avar_bytes(maps: &[Vec<(i16, i16)>]) -> Vec<u8> {
             be16(&mut v, *t as u16);
         }
     }
+    // data after the last segment map (a reader must stop at axisCount maps): 0-3 bytes, a function of the maps
+    let pairs: usize = maps.iter().map(|m| m.len()).sum();
+    pad(&mut v, 11, (pairs % 4) as i64);
     v
 }
 
-fn parse_axes(s: &str) -> Vec<(i32, i32, i32)> {
+fn parse_axes(s: &str) -> Vec<Axis> {
     s.split(' ')
         .filter(|x| !x.is_empty())
-        .map(|a| {
-            let p: Vec<i32> = a.split(',').map(|x| x.parse().unwrap()).collect();
-            (p[0], p[1], p[2])
+        .enumerate()
+        .map(|(i, a)| {
+            let p: Vec<i64> = a.split(',').map(|x| x.parse().unwrap()).collect();
+            (p[0] as i32, p[1] as i32, p[2] as i32, if p.len() > 3 { p[3] as u32 } else { 0x77676874 + i as u32 })
         })
         .collect()
+}
+
+fn parse_map(m: &str) -> Vec<(i16, i16)> {
+    if m == "_" {
+        vec![]
+    } else {
+        m.split(',')
+            .map(|ft| {
+                let p: Vec<i16> = ft.split(':').map(|x| x.parse().unwrap()).collect();
+                (p[0], p[1])
+            })
+            .collect()
+    }
 }
 
 fn parse_avar(s: &str) -> Option<Vec<Vec<(i16, i16)>>> {
     if s == "-" {
         return None;
     }
-    Some(
-        s.split(' ')
-            .filter(|x| !x.is_empty())
-            .map(|m| {
-                if m == "_" {
-                    vec![]
-                } else {
-                    m.split(',')
-                        .map(|ft| {
-                            let p: Vec<i16> = ft.split(':').map(|x| x.parse().unwrap()).collect();
-                            (p[0], p[1])
-                        })
-                        .collect()
-                }
-            })
-            .collect(),
-    )
+    Some(s.split(' ').filter(|x| !x.is_empty()).map(parse_map).collect())
+}
+
+/// `@k`: the user tuple is named instance k of the fvar table itself
+fn named_instance(s: &str) -> Option<usize> {
+    s.strip_prefix('@').map(|k| k.parse().unwrap())
+}
+
+fn parse_coords(s: &str) -> Vec<i32> {
+    if s.is_empty() || s == "-" || s.starts_with('@') {
+        vec![]
+    } else {
+        s.split(',').map(|x| x.parse().unwrap()).collect()
+    }
+}
+
+fn tuple_str(t: &[F2Dot14]) -> String {
+    format!("ok:{}", t.iter().map(|v| v.raw_value().to_string()).collect::<Vec<_>>().join(","))
+}
+
+/// FvarTable::normalize on the given fvar (and avar) bytes
+fn run_normalize(fb: &[u8], ab: Option<&[u8]>, coords: &[i32], named: Option<usize>) -> String {
+    let fvar = match ReadScope::new(fb).read::<FvarTable<'_>>() {
+        Ok(f) => f,
+        Err(e) => return format!("err:{}", perr(&e)),
+    };
+    let avar_t = match ab {
+        None => None,
+        Some(b) => match ReadScope::new(b).read::<AvarTable<'_>>() {
+            Ok(a) => Some(a),
+            Err(e) => return format!("err:avar-{}", perr(&e)),
+        },
+    };
+    let res = match named {
+        None => fvar.normalize(coords.iter().map(|c| Fixed::from_raw(*c)), avar_t.as_ref()),
+        // the record's own coordinate array is the user tuple (a ReadArrayIter, not a slice iterator)
+        Some(k) => match fvar.instances().nth(k) {
+            None => return "err:MissingValue".to_string(),
+            Some(Err(e)) => return format!("err:{}", perr(&e)),
+            Some(Ok(inst)) => fvar.normalize(inst.coordinates.iter(), avar_t.as_ref()),
+        },
+    };
+    match res {
+        Ok(t) => tuple_str(&t),
+        Err(e) => format!("err:{}", perr(&e)),
+    }
+}
+
+/// the coordinates of named instance k, for variations::instance
+fn named_coords(fb: &[u8], k: usize) -> Result<Vec<i32>, String> {
+    let fvar = ReadScope::new(fb).read::<FvarTable<'_>>().map_err(|e| format!("err:{}", perr(&e)))?;
+    let r = match fvar.instances().nth(k) {
+        None => Err("err:MissingValue".to_string()),
+        Some(Err(e)) => Err(format!("err:{}", perr(&e))),
+        Some(Ok(inst)) => Ok(inst.coordinates.iter().map(|c| c.raw_value()).collect()),
+    };
+    r
+}
+
+/// variations::instance on a complete TrueType variable font whose fvar (and avar) are the given bytes
+fn run_instance(fb: Vec<u8>, ab: Option<Vec<u8>>, naxes: usize, coords: &[i32]) -> String {
+    let ac = naxes.to_string();
+    // two glyphs (empty, triangle), no glyph variation data, no HVAR / MVAR
+    let line = ["e2e", ac.as_str(), "-", "-", "E~0~500~0~-/S:0,0 100,0 50,100:2~0~600~0~-", "-", "-", "0"];
+    let (mut tables, _) = c12::e2e::e2e_font(&line);
+    let fvar_tag = u32::from_be_bytes(*b"fvar");
+    for t in tables.iter_mut() {
+        if t.0 == fvar_tag {
+            t.1 = fb.clone();
+        }
+    }
+    if let Some(ab) = ab {
+        tables.push((u32::from_be_bytes(*b"avar"), ab));
+    }
+    let user: Vec<Fixed> = coords.iter().map(|c| Fixed::from_raw(*c)).collect();
+    match variations::instance(&c12::e2e::Prov(tables), &user) {
+        Ok((_font, tuple)) => tuple_str(&tuple),
+        Err(VariationError::Parse(e)) => format!("err:{}", perr(&e)),
+        Err(VariationError::Write(_)) => "err:write".to_string(),
+        Err(VariationError::CFF(_)) => "err:cff".to_string(),
+        Err(VariationError::NotVariableFont) => "err:not-variable".to_string(),
+        Err(VariationError::NotImplemented) => "err:not-implemented".to_string(),
+        Err(VariationError::NameError) => "err:name".to_string(),
+        Err(VariationError::TagError) => "err:tags".to_string(),
+    }
 }
 
 pub fn run(input: &str) -> String {
     let parts: Vec<&str> = input.split('|').collect();
-    let axes = parse_axes(parts[1]);
-    let avar = parse_avar(parts[2]);
-    let coords: Vec<i32> = if parts[3].is_empty() || parts[3] == "-" {
-        vec![]
-    } else {
-        parts[3].split(',').map(|x| x.parse().unwrap()).collect()
-    };
-    let fb = fvar_bytes(&axes);
-    let ab = avar.as_ref().map(|m| avar_bytes(m));
-    let res = catch_unwind(AssertUnwindSafe(|| {
-        let fvar = match ReadScope::new(&fb).read::<FvarTable<'_>>() {
-            Ok(f) => f,
-            Err(e) => return format!("err:fvar-{}", perr(&e)),
-        };
-        let avar_t = match &ab {
-            None => None,
-            Some(b) => match ReadScope::new(b).read::<AvarTable<'_>>() {
-                Ok(a) => Some(a),
+    let res = catch_unwind(AssertUnwindSafe(|| match parts[0] {
+        "S" => {
+            let ab = avar_bytes(&[parse_map(parts[1])]);
+            let x: i32 = parts[2].parse().unwrap();
+            let avar = match ReadScope::new(&ab).read::<AvarTable<'_>>() {
+                Ok(a) => a,
                 Err(e) => return format!("err:avar-{}", perr(&e)),
-            },
-        };
-        match fvar.normalize(coords.iter().map(|c| Fixed::from_raw(*c)), avar_t.as_ref()) {
-            Ok(t) => format!(
-                "ok:{}",
-                t.iter().map(|v| v.raw_value().to_string()).collect::<Vec<_>>().join(",")
-            ),
-            Err(e) => format!("err:{}", perr(&e)),
+            };
+            let r = match avar.segment_maps().next() {
+                Some(m) => format!("ok:{}", m.normalize(Fixed::from_raw(x)).raw_value()),
+                None => "err:BadIndex".to_string(),
+            };
+            r
+        }
+        "O" => {
+            let sh = Shape::parse(parts[1]);
+            let fb = fvar_bytes_shape(&sh, &parse_axes(parts[2]));
+            let k: usize = parts[3].parse().unwrap();
+            match ReadScope::new(&fb).read::<FvarTable<'_>>() {
+                Ok(f) => format!("ok:{}", f.owned_tuple(&vec![F2Dot14::from_raw(0); k]).is_some() as u8),
+                Err(e) => format!("err:{}", perr(&e)),
+            }
+        }
+        kind => {
+            // N (canonical shape), F, I
+            let (sh, rest) = if kind == "N" { (CANONICAL, &parts[1..]) } else { (Shape::parse(parts[1]), &parts[2..]) };
+            let axes = parse_axes(rest[0]);
+            let avar = parse_avar(rest[1]);
+            let coords = parse_coords(rest[2]);
+            let named = named_instance(rest[2]);
+            let fb = fvar_bytes_shape(&sh, &axes);
+            let ab = avar.as_ref().map(|m| avar_bytes(m));
+            if kind == "I" {
+                let coords = match named {
+                    None => coords,
+                    Some(k) => match named_coords(&fb, k) {
+                        Ok(c) => c,
+                        Err(e) => return e,
+                    },
+                };
+                run_instance(fb, ab, axes.len(), &coords)
+            } else {
+                run_normalize(&fb, ab.as_deref(), &coords, named)
+            }
         }
     }));
     match res {
@@ -193,31 +375,36 @@ fn gen_map(rng: &mut Rng) -> Vec<(i16, i16)> {
     }
 }
 
-pub fn gen(rng: &mut Rng) -> String {
-    let n = match rng.below(10) {
-        0 => 0,
-        1..=5 => 1,
-        6 | 7 => 2,
-        _ => 1 + rng.below(5) as usize,
-    };
+fn map_str(m: &[(i16, i16)]) -> String {
+    if m.is_empty() {
+        "_".to_string()
+    } else {
+        m.iter().map(|(f, t)| format!("{}:{}", f, t)).collect::<Vec<_>>().join(",")
+    }
+}
+
+/// AXES|AVAR|COORDS for `n` axes; `tags`: write the axis tags explicitly (registered and private ones)
+fn gen_tuple_case(rng: &mut Rng, n: usize, tags: bool) -> String {
     let axes: Vec<(i32, i32, i32)> = (0..n).map(|_| gen_axis(rng)).collect();
-    let ncoords = if rng.chance(1, 12) { rng.below(6) as usize } else { n };
+    // wrong length on purpose: one short, one long (the boundaries), empty, two long, anything
+    let ncoords = if rng.chance(1, 10) {
+        match rng.below(6) {
+            0 => n.saturating_sub(1),
+            1 | 2 => n + 1,
+            3 => 0,
+            4 => n + 2,
+            _ => rng.below(8) as usize,
+        }
+    } else {
+        n
+    };
     let mut maps_for: Vec<Vec<(i16, i16)>> = vec![];
     let avar = if rng.chance(1, 2) {
         let nm = if rng.chance(1, 10) { rng.below(5) as usize } else { n };
         for _ in 0..nm {
             maps_for.push(gen_map(rng));
         }
-        let s: Vec<String> = maps_for
-            .iter()
-            .map(|m| {
-                if m.is_empty() {
-                    "_".to_string()
-                } else {
-                    m.iter().map(|(f, t)| format!("{}:{}", f, t)).collect::<Vec<_>>().join(",")
-                }
-            })
-            .collect();
+        let s: Vec<String> = maps_for.iter().map(|m| map_str(m)).collect();
         if s.is_empty() {
             "_".to_string() // an avar with... keep at least one token; `_` = one empty map
         } else {
@@ -260,13 +447,158 @@ pub fn gen(rng: &mut Rng) -> String {
             c.to_string()
         })
         .collect();
-    let axes_s: Vec<String> = axes.iter().map(|(a, b, c)| format!("{},{},{}", a, b, c)).collect();
-    format!(
-        "N|{}|{}|{}",
-        axes_s.join(" "),
-        avar,
-        if coords.is_empty() { "-".to_string() } else { coords.join(",") }
-    )
+    const TAGS: [&[u8; 4]; 8] = [b"wght", b"wdth", b"ital", b"slnt", b"opsz", b"GRAD", b"XTRA", b"wght"];
+    let axes_s: Vec<String> = axes
+        .iter()
+        .map(|(a, b, c)| {
+            if tags {
+                format!("{},{},{},{}", a, b, c, u32::from_be_bytes(**rng.pick(&TAGS)))
+            } else {
+                format!("{},{},{}", a, b, c)
+            }
+        })
+        .collect();
+    format!("{}|{}|{}", axes_s.join(" "), avar, if coords.is_empty() { "-".to_string() } else { coords.join(",") })
+}
+
+/// an fvar layout for `n` axes: mostly legal (any axesArrayOffset >= 16, any axisSize >= 20, instance records
+/// of any size, trailing bytes), sometimes (`allow_bad`) one header field off or the table cut short
+fn gen_shape(rng: &mut Rng, n: usize, allow_bad: bool) -> Shape {
+    let mut sh = CANONICAL;
+    sh.off = match rng.below(10) {
+        0..=4 => 16,
+        5 => 18,
+        6 => 20,
+        7 => 17,
+        _ => 16 + rng.below(48) as i64,
+    };
+    sh.asz = match rng.below(10) {
+        0..=2 => 20,
+        3 => 21,
+        4 => 22,
+        5 => 24,
+        6 => 28,
+        7 => 40,
+        _ => 20 + rng.below(60) as i64,
+    };
+    sh.icnt = match rng.below(6) {
+        0 | 1 => 0,
+        2 => 1,
+        3 => 2,
+        _ => rng.below(7) as i64,
+    };
+    sh.isz = match rng.below(6) {
+        0 | 1 => 4 + 4 * n as i64,
+        2 | 3 => 6 + 4 * n as i64,
+        4 => 4 + 4 * n as i64 + rng.below(9) as i64,
+        _ => rng.below(12) as i64,
+    };
+    sh.trail = if rng.chance(1, 3) { rng.below(9) as i64 } else { 0 };
+    if allow_bad && rng.chance(1, 8) {
+        match rng.below(6) {
+            0 => sh.major = *rng.pick(&[0, 2, 256]),
+            1 => sh.off = rng.below(16) as i64,
+            2 => sh.asz = *rng.pick(&[0, 4, 16, 19]),
+            3 => sh.dcount = *rng.pick(&[-1, 1, 1, 2]).max(&-(n as i64)),
+            4 => sh.trail = -(1 + rng.below(6) as i64),
+            _ => sh.trail = -(rng.below(60) as i64),
+        }
+    }
+    sh
+}
+
+/// in 1/6 of the cases the user tuple is one of the table's own named instances: mostly an existing record that
+/// holds all its coordinates (with and without postScriptNameID, or larger), sometimes one past the last
+/// record or a record too small for the axis count
+fn with_named_instance(rng: &mut Rng, n: usize, sh: &mut Shape) -> Option<u64> {
+    if !rng.chance(1, 6) {
+        return None;
+    }
+    if rng.chance(5, 6) {
+        sh.icnt = 1 + rng.below(4) as i64;
+        sh.isz = 4 + 4 * n as i64 + *rng.pick(&[0, 0, 2, 2, 3, 8]);
+        Some(rng.below(sh.icnt as u64))
+    } else {
+        Some(rng.below(sh.icnt.max(0) as u64 + 1))
+    }
+}
+
+fn named_line(line: String, named: Option<u64>) -> String {
+    match named {
+        None => line,
+        Some(k) => format!("{}|@{}", &line[..line.rfind('|').unwrap()], k),
+    }
+}
+
+fn gen_axis_count(rng: &mut Rng) -> usize {
+    match rng.below(12) {
+        0 => 0,
+        1..=4 => 1,
+        5..=7 => 2,
+        8 | 9 => 3,
+        10 => 1 + rng.below(5) as usize,
+        _ => 4 + rng.below(6) as usize, // beyond the tuple's inline capacity of 4
+    }
+}
+
+/// S|MAP|X: a segment map and a 16.16 value at / next to a knot, inside a segment, or anywhere
+fn gen_segment_case(rng: &mut Rng) -> String {
+    let m = gen_map(rng);
+    let x: i32 = match rng.below(8) {
+        0..=2 if !m.is_empty() => {
+            let k = rng.below(m.len() as u64) as usize;
+            (m[k].0 as i32) * 4 + rng.range(-2, 2) as i32
+        }
+        3 | 4 => rng.range(-65536, 65536) as i32,
+        5 => *rng.pick(&[-65536, -65535, -1, 0, 1, 65535, 65536]),
+        6 => rng.range(-80000, 80000) as i32,
+        _ => fx(rng),
+    };
+    format!("S|{}|{}", map_str(&m), x)
+}
+
+pub fn gen(rng: &mut Rng) -> String {
+    match rng.below(20) {
+        // canonical layout: the arithmetic
+        0..=7 => {
+            let n = match rng.below(10) {
+                0 => 0,
+                1..=5 => 1,
+                6 | 7 => 2,
+                _ => 1 + rng.below(5) as usize,
+            };
+            format!("N|{}", gen_tuple_case(rng, n, false))
+        }
+        // any layout through FvarTable::normalize
+        8..=13 => {
+            let n = gen_axis_count(rng);
+            let mut sh = gen_shape(rng, n, true);
+            let named = with_named_instance(rng, n, &mut sh);
+            let tags = rng.chance(1, 3);
+            named_line(format!("F|{}|{}", sh.to_line(), gen_tuple_case(rng, n, tags)), named)
+        }
+        // the same through variations::instance
+        14..=16 => {
+            let n = gen_axis_count(rng);
+            let bad = rng.chance(1, 3);
+            let mut sh = if rng.chance(1, 3) { CANONICAL } else { gen_shape(rng, n, bad) };
+            let named = with_named_instance(rng, n, &mut sh);
+            named_line(format!("I|{}|{}", sh.to_line(), gen_tuple_case(rng, n, true)), named)
+        }
+        17 | 18 => gen_segment_case(rng),
+        _ => {
+            let n = gen_axis_count(rng);
+            let sh = gen_shape(rng, n, true);
+            let axes = gen_tuple_case(rng, n, false);
+            let k = match rng.below(4) {
+                0 => n as i64 + sh.dcount,
+                1 => n as i64 + sh.dcount + 1,
+                2 => (n as i64 + sh.dcount - 1).max(0),
+                _ => rng.below(8) as i64,
+            };
+            format!("O|{}|{}|{}", sh.to_line(), axes.split('|').next().unwrap(), k)
+        }
+    }
 }
 
 fn main() {
